@@ -523,6 +523,10 @@ func init() {
 					}
 				}
 			}
+			ev.Coverage["higher_scoped_judgements"] = r.Counters["higher_scoped_judgements"]
+			if r.Counters["higher_scoped_judgements"] < 40 {
+				gates = append(gates, "the higher-scoped configuration scenario (own process) did not complete")
+			}
 			if r.Counters["isolation_scenarios"] == 0 {
 				gates = append(gates, "registry-isolation scenarios did not run")
 			}
